@@ -63,14 +63,38 @@ def parse : List String → Option QIn
     pure (.hookDone tgt ed)
   | _ => none
 
-def stepLine (m : Mux C29.State) (line : String) : Mux C29.State × String :=
+/-- driver state: the layer model + the owners of the hooks that are still unanswered, in the order they were yielded
+    (the world answers them in any order the schedule likes: `hookidx k e` completes the k-th pending one).  The model
+    PREDICTS which stream's hook that is; the harness compares it with the hook the real layer had emitted. -/
+structure DState where
+  m : Mux C29.State
+  pend : List (Option Nat)
+
+def hookOwners (outs : List QOut) : List (Option Nat) :=
+  outs.filterMap fun o => match o with | .hook ow _ => some ow | _ => none
+
+def showOwner : Option Nat → String
+  | some c => toString c
+  | none => "dg"
+
+def stepLine (d : DState) (line : String) : DState × String :=
   match fields line with
-  | ["reset"] => (Mux.init relayOps, "ok")
+  | ["reset"] => (⟨Mux.init relayOps, []⟩, "ok")
+  | ["hookidx", k, e] =>
+    match k.toNat?, (if e = "none" then some none else (hexOr e).map some) with
+    | some k, some ed =>
+      if d.pend.isEmpty then (d, "bad-op")
+      else
+        let i := k % d.pend.length
+        let ow := (d.pend[i]?).getD none
+        let r := step relayOps d.m (.hookDone ow ed)
+        (⟨r.1, d.pend.eraseIdx i ++ hookOwners r.2⟩, "own=" ++ showOwner ow ++ " " ++ render r.1 r.2)
+    | _, _ => (d, "bad-op")
   | fs =>
     match parse fs with
-    | some i => let r := step relayOps m i; (r.1, render r.1 r.2)
-    | none => (m, "bad-op")
+    | some i => let r := step relayOps d.m i; (⟨r.1, d.pend ++ hookOwners r.2⟩, render r.1 r.2)
+    | none => (d, "bad-op")
 
 end C30Driver
 
-def main : IO Unit := runState C30Driver.stepLine (Mux.init relayOps)
+def main : IO Unit := runState C30Driver.stepLine ⟨Mux.init relayOps, []⟩
